@@ -17,8 +17,8 @@ if not R.REAL:
     from vt.substrate.fakeh5 import Crash
 FakePath = B.P
 
-from metador_core.ih5.manifest import IH5MFRecord
-from metador_core.ih5.record import IH5Record, IH5UserBlock
+from metador_core.ih5.manifest import IH5MFRecord, IH5UBExtManifest
+from metador_core.ih5.record import IH5Record, IH5UserBlock, hashsum_file
 
 ENCODED = [IH5UserBlock.save, IH5UserBlock.load, IH5UserBlock._read_head_raw, IH5Record.commit_patch,
            IH5Record.create_patch, IH5Record._new_container, IH5Record._open, IH5Record._check_ublock,
@@ -74,7 +74,36 @@ def _judge(C, committed_before, v_committed, v_final, files_committed):
     finally:
         r.close()
     if newest.hdf5_hashsum is None:
-        return True  # interrupted patch, clearly recognisable as uncommitted
+        # interrupted patch, clearly recognisable as uncommitted. Recovery: reopening writable (explicit file list
+        # in reversed order, then by name) and discarding the interrupted patch must not damage what was committed.
+        allf = sorted((k for k in snap() if k.endswith(".ih5") and k.startswith(REC_PATH + ".")), key=lambda f: (len(f), f))
+        for how in (() if R.REAL else ("list_reversed", "name")):
+            saved = fakeh5.clone_fs()
+            try:
+                r = C([FakePath(f) for f in reversed(allf)], "r+") if how == "list_reversed" else C(REC_PATH, "r+")
+                r.discard_patch()
+                vr = view(r)
+                r.close()
+            except OPEN_ERRORS as e:
+                note(("recovery (reopen r+ and discard) failed", how, type(e).__name__, str(e)[:100]))
+                return False
+            now2 = snap()
+            for k, s_ in committed_before.items():
+                if now2.get(k) != s_:
+                    note(("recovery discard damaged a committed file", how, k))
+                    return False
+            if vr != v_committed:
+                note(("after recovery discard the view is not the last committed state", how))
+                return False
+            fakeh5.restore_fs(saved)
+        return True
+    if C is IH5MFRecord:
+        # a committed newest container of a manifest record comes with its manifest (link, sidecar, hash)
+        ext = IH5UBExtManifest.get(newest)
+        side = FakePath(str(sorted((k for k in snap() if k.endswith(".ih5") and k.startswith(REC_PATH + ".")), key=lambda f: (len(f), f))[-1]) + "mf.json")
+        if ext is None or not side.is_file() or hashsum_file(side) != ext.manifest_hashsum:
+            note(("opens cleanly as committed, but without (matching) manifest: a state that is never written",))
+            return False
     if nfiles == len(files_committed):
         return v == v_committed  # the interrupted patch left nothing behind that is picked up
     if v != v_final:
